@@ -5,7 +5,7 @@ C14 — property theorems. `requestLoop` is the model of `retry.Config.RequestFu
 clock readings, backoff values, configurations and cancellation points. The conclusions are the `Spec`
 predicates that the driver evaluates on the observed behaviour of the real code.
 -/
-import Otel.C14.Lemmas
+import Otel.C14.TimeLemmas
 namespace Otel.C14
 open Otel Otel.C14 Otel.C14.Spec
 
@@ -251,6 +251,170 @@ theorem class_grpc_ok (r : GrpcResp) : classGRPCOK r (classifyGRPC r) = true := 
         | ok p => simp [throttleHonoursHint]
         | fatal => simp [throttleHonoursHint]
 
+/-! ### how long, how often ("never blocks beyond that", quantitatively) -/
+
+/-- every requested wait is the server's throttle or at most `maxBackoff = 1.5·max(Initial, MaxInterval) + 1`,
+for every draw sequence allowed by the backoff contract. -/
+theorem retry_waits_bounded (cfg : Config) (atts : List Attempt) (bs : List Dur) (ca : Option (Nat × Dur))
+    (hI : 0 ≤ cfg.initial) (hMI : 0 ≤ cfg.maxInterval) (hbs : backoffsOK cfg bs = true) :
+    waitsBounded cfg (atts.map (·.out)) (requestLoop cfg atts bs ca) = true := by
+  have hB0 : 0 ≤ maxBackoff cfg := by simp only [maxBackoff]; omega
+  unfold requestLoop
+  split
+  · exact loopFrom_waitsBounded cfg ca atts 0 bs hB0 (backoffsOKFrom_le cfg hI hMI bs 0 hbs)
+  · cases atts <;> simp [waitsBounded]
+
+/-- with `MaxElapsedTime = M ≠ 0`: every wait STARTS while `elapsed + throttle ≤ M` and ENDS — the next attempt
+starts — at `elapsed ≤ M + max 0 (maxBackoff − throttle)`: what the code guarantees is "at most one backoff draw
+past `M`", because only the throttle, not the backoff, is compared with `M` before waiting. -/
+theorem retry_wait_ends_by (cfg : Config) (atts : List Attempt) (bs : List Dur) (ca : Option (Nat × Dur))
+    (hI : 0 ≤ cfg.initial) (hMI : 0 ≤ cfg.maxInterval) (hbs : backoffsOK cfg bs = true) :
+    waitsEndBy cfg atts (requestLoop cfg atts bs ca) = true := by
+  have hB0 : 0 ≤ maxBackoff cfg := by simp only [maxBackoff]; omega
+  unfold requestLoop
+  split
+  · exact loopFrom_waitsEndBy cfg ca atts 0 bs hB0 (backoffsOKFrom_le cfg hI hMI bs 0 hbs)
+  · cases atts <;> simp [waitsEndBy]
+
+/-- `MaxElapsedTime = 0` ("retry until the context is done"): the call ends only by a success, a non-retryable
+outcome, or the context/stop — never for lack of time. -/
+theorem retry_unlimited_ends_only (cfg : Config) (atts : List Attempt) (bs : List Dur)
+    (ca : Option (Nat × Dur)) : unlimitedOK cfg (requestLoop cfg atts bs ca) = true := by
+  by_cases hM : cfg.maxElapsed = 0
+  · unfold requestLoop
+    split
+    · have := loopFrom_unlimited cfg ca hM atts 0 bs
+      simp [unlimitedOK, hM, this.1, this.2]
+    · cases atts <;> simp [unlimitedOK]
+  · simp [unlimitedOK, hM]
+
+/-- … and without cancellation it goes on until the first terminal outcome, however far that is: it is reached
+and returned after index + 1 attempts. -/
+theorem retry_unlimited_reaches_terminal (cfg : Config) (atts : List Attempt) (bs : List Dur) (i : Nat)
+    (he : cfg.enabled = true) (hM : cfg.maxElapsed = 0)
+    (hi : firstTerminal (atts.map (·.out)) = some i) :
+    (requestLoop cfg atts bs none).result = .returned ((atts.map (·.out)).getD i .fatal) ∧
+    (requestLoop cfg atts bs none).attempts = i + 1 := by
+  have hs := retry_stops_at_first_terminal cfg atts bs none he
+  simp only [requestLoop, he, if_true] at hs ⊢
+  have hu := loopFrom_unlimited cfg none hM atts 0 bs
+  have hc := loopFrom_cancelOK_none cfg atts 0 bs
+  have hp := loopFrom_pending cfg none atts 0 bs
+  generalize loopFrom cfg none 0 atts bs = r at *
+  cases hr : r.result with
+  | returned o =>
+    simp only [stopsAtFirstTerminal, hi, hr] at hs
+    simp at hs
+    obtain ⟨⟨_, h2⟩, h3, _, _⟩ := hs
+    have : r.attempts = i + 1 := by omega
+    refine ⟨?_, this⟩
+    rcases h2 with h2 | h2
+    · exact absurd this h2
+    · rw [h2]; simp
+  | maxElapsed => exact absurd hr hu.1
+  | wouldElapse => exact absurd hr hu.2
+  | cancelled => exact absurd hr hc
+  | pending => have := hp hr; rw [hi] at this; cases this
+
+/-- … and a script without a terminal outcome is retried to its end ("forever"). -/
+theorem retry_unlimited_never_gives_up (cfg : Config) (atts : List Attempt) (bs : List Dur)
+    (he : cfg.enabled = true) (hM : cfg.maxElapsed = 0)
+    (hi : firstTerminal (atts.map (·.out)) = none) :
+    (requestLoop cfg atts bs none).result = .pending := by
+  have hs := retry_stops_at_first_terminal cfg atts bs none he
+  simp only [requestLoop, he, if_true] at hs ⊢
+  have hu := loopFrom_unlimited cfg none hM atts 0 bs
+  have hc := loopFrom_cancelOK_none cfg atts 0 bs
+  generalize loopFrom cfg none 0 atts bs = r at *
+  cases hr : r.result with
+  | returned o => simp [stopsAtFirstTerminal, hi, hr] at hs
+  | maxElapsed => exact absurd hr hu.1
+  | wouldElapse => exact absurd hr hu.2
+  | cancelled => exact absurd hr hc
+  | pending => rfl
+
+/-- the time clauses evaluated by the oracle on every line. -/
+theorem retry_time_ok (cfg : Config) (atts : List Attempt) (bs : List Dur) (ca : Option (Nat × Dur))
+    (hI : 0 ≤ cfg.initial) (hMI : 0 ≤ cfg.maxInterval) (hbs : backoffsOK cfg bs = true) :
+    timeOK cfg atts (requestLoop cfg atts bs ca) = true := by
+  simp only [timeOK, Bool.and_eq_true]
+  exact ⟨⟨retry_waits_bounded cfg atts bs ca hI hMI hbs, retry_wait_ends_by cfg atts bs ca hI hMI hbs⟩,
+    retry_unlimited_ends_only cfg atts bs ca⟩
+
+/-- RETURN TIME on the model's own clock (attempts take `d1 + d2`, waits exactly their delay; `timeline`): with
+`0 < M`, no negative throttle, any draws allowed by the contract and any cancellation, the call returns at
+elapsed `≤ M + maxBackoff + D`, `D` = the longest attempt — i.e. at most one backoff draw and one attempt past
+`MaxElapsedTime`. -/
+theorem retry_returns_by (cfg : Config) (tas : List Timed) (bs : List Dur) (ca : Option (Nat × Dur)) (D : Dur)
+    (hM : 0 < cfg.maxElapsed) (hI : 0 ≤ cfg.initial) (hMI : 0 ≤ cfg.maxInterval)
+    (hbs : backoffsOK cfg bs = true)
+    (ht : ∀ t ∈ tas, 0 ≤ t.d1 ∧ 0 ≤ t.d2 ∧ t.d1 + t.d2 ≤ D ∧ 0 ≤ throttleOfOut t.out) (hD : 0 ≤ D) :
+    returnTimeFrom cfg ca 0 (timeline 0 tas bs) bs ≤ cfg.maxElapsed + maxBackoff cfg + D := by
+  have hB0 : 0 ≤ maxBackoff cfg := by simp only [maxBackoff]; omega
+  exact timeline_return_bound cfg ca hM hB0 D hD tas 0 0 bs (by omega)
+    (backoffsOKFrom_le cfg hI hMI bs 0 hbs) ht
+
+/-- NUMBER OF ATTEMPTS on the model's clock: with `0 < M`, `0 < InitialInterval/2`, `InitialInterval ≤ MaxInterval`,
+no negative throttle, `(attempts − 2) · (InitialInterval/2) ≤ M`, i.e.
+`attempts ≤ M / (InitialInterval·(1 − RandomizationFactor)) + 2`: "retries forever" is impossible. -/
+theorem retry_attempts_bounded (cfg : Config) (tas : List Timed) (bs : List Dur) (ca : Option (Nat × Dur))
+    (he : cfg.enabled = true) (hbs : backoffsOK cfg bs = true) (hlen : tas.length ≤ bs.length)
+    (ht : ∀ t ∈ tas, 0 ≤ t.d1 ∧ 0 ≤ t.d2 ∧ 0 ≤ throttleOfOut t.out) :
+    attemptsBounded cfg (tas.map (·.out)) (requestLoop cfg (timeline 0 tas bs) bs ca) = true := by
+  simp only [attemptsBounded, Bool.or_eq_true, Bool.not_eq_true', Bool.and_eq_false_iff, decide_eq_true_eq]
+  by_cases hM : 0 < cfg.maxElapsed
+  · by_cases hq : 0 < minBackoff cfg
+    · by_cases hIM : cfg.initial ≤ cfg.maxInterval
+      · right
+        have hI : 0 < cfg.initial := by simp only [minBackoff] at hq; omega
+        have hw := timeline_waits_bound cfg ca (by omega) hq tas 0 0 bs hlen
+          (backoffsOKFrom_ge cfg hI hIM bs 0 hbs) ht
+        have hc := retry_wait_count cfg (timeline 0 tas bs) bs ca he
+        simp only [requestLoop, he, if_true] at hc ⊢
+        generalize loopFrom cfg ca 0 (timeline 0 tas bs) bs = r at hw hc ⊢
+        have hA : (r.attempts : Int) ≤ (r.waits.length : Int) + 1 := by
+          simp only [waitCountOK] at hc
+          cases hr : r.result <;> simp [hr] at hc <;> omega
+        have h1 : ((r.attempts : Int) - 2) * minBackoff cfg ≤ ((r.waits.length : Int) - 1) * minBackoff cfg :=
+          Int.mul_le_mul_of_nonneg_right (by omega) (by omega)
+        generalize hX : (r.waits.length : Int) * minBackoff cfg = X at hw
+        generalize hY : ((r.attempts : Int) - 2) * minBackoff cfg = Y at h1 ⊢
+        rw [Int.sub_mul, Int.one_mul, hX] at h1
+        omega
+      · left; left; right; simpa using hIM
+    · left; left; left; right; simpa using hq
+  · left; left; left; left; simpa using hM
+
+/-- DEADLINE / cancellation, quantitatively: once the context is done (`c` ns into wait `j`) no time is spent
+waiting any more — every later wait that still ran to its end had a non-positive delay, wait `j` itself ran to
+its end only if its timer was not later than the cancellation, and (`retry_cancel`) the wait that is cut returns
+at that instant with no attempt afterwards. So the call returns no later than the deadline or the end of the
+attempt in flight at the deadline. -/
+theorem retry_no_blocking_after_cancel (cfg : Config) (atts : List Attempt) (bs : List Dur) (j : Nat) (c : Dur)
+    (he : cfg.enabled = true) (i : Nat) (w : Dur)
+    (hw : (requestLoop cfg atts bs (some (j, c))).waits[i]? = some w) (hji : j ≤ i)
+    (hdone : (requestLoop cfg atts bs (some (j, c))).result ≠ .cancelled ∨
+             i + 1 < (requestLoop cfg atts bs (some (j, c))).waits.length) :
+    w ≤ (if i = j then c else 0) := by
+  have hc := retry_cancel cfg atts bs (some (j, c)) he
+  generalize requestLoop cfg atts bs (some (j, c)) = r at *
+  simp only [cancelOK] at hc
+  cases hr : r.result <;> simp only [hr] at hc
+  case cancelled =>
+    rcases hdone with h | h
+    · exact absurd hr h
+    · have := cancelledOK_get (j, c) r.waits 0 hc i w hw h
+      simp only [Nat.zero_add] at this
+      rcases this with h | h
+      · omega
+      · exact h
+  all_goals
+    have := completedOK_get (j, c) r.waits 0 hc i w hw
+    simp only [Nat.zero_add] at this
+    rcases this with h | h
+    · omega
+    · exact h
+
 /-! ### non-vacuity: the hypotheses are satisfiable and the conclusions are about non-trivial runs -/
 
 /-- three attempts (503 with throttle, Unavailable-like retry, then success), two waits ≥ throttle -/
@@ -275,5 +439,17 @@ example :
 example : classifyGRPC ⟨8, [.other, .retryInfo 7], false⟩ = .retryable 7 ∧ classifyGRPC ⟨8, [.other], false⟩ = .fatal ∧
     F19_applies ⟨.none, 503, some [48], false, .empty⟩ = false ∧
     classifyHTTP ⟨.none, 200, none, true, .proto (some (3, false))⟩ = .ok true := by decide
+
+/-- model clock: M = 100, Initial = Max = 10 (draws 5..16), attempts of 30 ns: two waits, the second one runs past M
+(starts at 79, ends at 95+…), third attempt ends after M and the call gives up at 125 ≤ 100 + 16 + 30 -/
+example :
+    let cfg : Config := { enabled := true, initial := 10, maxInterval := 10, maxElapsed := 100 }
+    let tas : List Timed := [⟨.retryable 0, 30, 0⟩, ⟨.retryable 0, 30, 0⟩, ⟨.retryable 0, 30, 0⟩, ⟨.ok false, 30, 0⟩]
+    backoffsOK cfg [9, 16, 5, 5] = true ∧
+    requestLoop cfg (timeline 0 tas [9, 16, 5, 5]) [9, 16, 5, 5] none
+      = { result := .maxElapsed, attempts := 3, waits := [9, 16] } ∧
+    returnTimeFrom cfg none 0 (timeline 0 tas [9, 16, 5, 5]) [9, 16, 5, 5] = 115 ∧
+    attemptsBounded cfg (tas.map (·.out)) (requestLoop cfg (timeline 0 tas [9, 16, 5, 5]) [9, 16, 5, 5] none) = true ∧
+    maxBackoff cfg = 16 ∧ minBackoff cfg = 5 := by decide
 
 end Otel.C14
